@@ -2587,7 +2587,6 @@ class MultiValueColumnUnpivotSegment(BaseSegment):
     type = "unpivot_multi_column"
     match_grammar = Sequence(
         Bracketed(Delimited(Ref("SingleIdentifierGrammar"))),
-        Indent,
         "FOR",
         Ref("SingleIdentifierGrammar"),
         "IN",
